@@ -243,6 +243,14 @@ type stockInit struct {
 type vendOp struct {
 	Consumable string `json:"consumable"`
 	Q          qty    `json:"q"`
+	NoQ        bool   `json:"no_q"` // the request carries no quantity at all
+}
+
+func (o vendOp) q() *qty {
+	if o.NoQ {
+		return nil
+	}
+	return &o.Q
 }
 
 type vendSeq struct {
@@ -276,7 +284,7 @@ func (c *vendSeq) Line() string {
 		sb.WriteString(strings.Join(st, "|"))
 	}
 	for _, o := range c.Ops {
-		sb.WriteString(" " + encName(o.Consumable) + "@" + o.Q.enc())
+		sb.WriteString(" " + encName(o.Consumable) + "@" + o.q().enc())
 	}
 	return sb.String()
 }
@@ -338,7 +346,7 @@ func (c *vendSeq) RunCode() string {
 		o := o
 		c.pre = append(c.pre, inventoryState(m))
 		ret := catch(func() string {
-			st, err := srv.Dispense(context.Background(), &traits.DispenseRequest{Consumable: o.Consumable, Quantity: o.Q.pb()})
+			st, err := srv.Dispense(context.Background(), &traits.DispenseRequest{Consumable: o.Consumable, Quantity: o.q().pb()})
 			if err != nil {
 				return "err:" + status.Code(err).String()
 			}
@@ -380,6 +388,9 @@ func (c *vendSeq) Check(m *lib.Monitor, code string) {
 		}
 		if ret == "panic" || strings.Contains(steps[i], "# panic") {
 			cls := "panic"
+			if o.NoQ {
+				cls = "panic/missing-quantity"
+			}
 			for _, s := range pre {
 				if s.Name == o.Consumable && s.Used == nil && s.Remaining != nil {
 					cls = "panic/used-absent"
@@ -397,6 +408,17 @@ func (c *vendSeq) Check(m *lib.Monitor, code string) {
 		if o.Consumable == "" {
 			if ret != "err:InvalidArgument" {
 				m.Violate("C20/vending/Dispense/empty-consumable", "empty consumable must be InvalidArgument", c, "err:InvalidArgument", ret)
+			}
+			continue
+		}
+		if o.NoQ {
+			// the proto has no required fields: a request without a quantity is a request the server must
+			// answer, with InvalidArgument, not a panic
+			if ret != "err:InvalidArgument" {
+				m.Violate("C20/vending/Dispense/missing-quantity", "a Dispense request without a quantity must be rejected with InvalidArgument", c, "err:InvalidArgument", ret)
+			}
+			if encInv(pre) != encInv(post) {
+				m.Violate("C20/vending/Dispense/frame", "a rejected Dispense changed the inventory", c, encInv(pre), encInv(post))
 			}
 			continue
 		}
@@ -636,7 +658,7 @@ func init() {
 			}
 		}
 		seq := &section{name: "vending/seq",
-			tie:     res.Tie("vending.Dispense sequences", "K1", "random: 1..3 stock records with any subset of used/remaining present (each 70%), units mostly volume (70%) else any of the 9 unit numbers, then 1..6 Dispense ops (consumable known 77%, unknown 10%, empty 5%, near-miss variant of a known name 8%); the model replays the sequence over exact rationals from the same float32 inputs, answers equal when every amount is within 1e-5 x the largest magnitude in the answer (float32 rounding is relative to the operands); non-trivial = some op hits a stock with a quantity present; distinct by request line"),
+			tie:     res.Tie("vending.Dispense sequences", "K1", "random: 1..3 stock records with any subset of used/remaining present (each 70%), units mostly volume (70%) else any of the 9 unit numbers, then 1..6 Dispense ops (consumable known 77%, unknown 10%, empty 5%, near-miss variant of a known name 8%; 4% of requests carry no quantity); the model replays the sequence over exact rationals from the same float32 inputs, answers equal when every amount is within 1e-5 x the largest magnitude in the answer (float32 rounding is relative to the operands); non-trivial = some op hits a stock with a quantity present; distinct by request line"),
 			mon:     res.Monitor("vending.Dispense vs math/big spec", "per step from the code's own previous state: used' = used + conv q, remaining' = max 0 (remaining - conv q), own units kept, absent stays absent, other stocks unchanged, conversion error reported and stock unchanged, no panic"),
 			compare: numericEqualScaled(1e-5)}
 		names := []string{"water", "milk", "beans"}
@@ -659,7 +681,11 @@ func init() {
 				case r < 23:
 					name = nearMiss(rng, name)
 				}
-				ops = append(ops, vendOp{Consumable: name, Q: qty{Unit: likelyUnit(rng), Amount: randAmount(rng)}})
+				op := vendOp{Consumable: name, Q: qty{Unit: likelyUnit(rng), Amount: randAmount(rng)}}
+				if rng.Intn(25) == 0 {
+					op = vendOp{Consumable: name, NoQ: true}
+				}
+				ops = append(ops, op)
 			}
 			seq.add(&vendSeq{Model: "vending", Kind: "seq", Init: init, Ops: ops})
 		}
